@@ -839,7 +839,12 @@ func (e *faultseqEngine) plan(seed uint64, tier string) []fsCase {
 				default:
 					cases = append(cases, fsCase{c, []Fault{{Pos: k, Call: call, Kind: kind}}})
 				}
+				if kind == "err" && call == cReadAt {
+					// the medium is gone from this read on (a bad spot that every later pass hits again)
+					cases = append(cases, fsCase{c, []Fault{{Pos: k, Call: call, Kind: kind, Persist: true}}})
+				}
 				if kind == "err" && call == cSign {
+					cases = append(cases, fsCase{c, []Fault{{Pos: k, Call: call, Kind: kind, Errno: "partial_sig"}}})
 					// a device that says its refusal is temporary; once, and for good
 					cases = append(cases, fsCase{c, []Fault{{Pos: k, Call: call, Kind: kind, Errno: "temporary"}}})
 					cases = append(cases, fsCase{c, []Fault{{Pos: k, Call: call, Kind: kind, Errno: "temporary", Persist: true}}})
